@@ -207,6 +207,10 @@ def build_pair(case):
         if case.get("spread"):
             to_spread(var, case["spread"])
     elif fam == "water":
+        if case.get("den"):          # both sides stated per litre / per kg solution; only the variant is scaled
+            for model in (ref, var):
+                for _, _, b in blocks_of(model, "SOLUTION"):
+                    b["fam"] = case["den"]
         scale_model(var, case["f"])
         info["factor"] = case["f"]
         info["path_changes"] = True
@@ -450,7 +454,7 @@ def fingerprint(case):
                                         " density=%s" % ("calc" if case["density"][1] else "fixed") if case.get("density") else "",
                                         " spread" if case.get("spread") else "")
     if fam == "water":
-        return "water-scale base=%s" % b
+        return "water-scale base=%s%s" % (b, (" den=%s" % case["den"]) if case.get("den") else "")
     if fam == "renum":
         return "renumber kinds=%s base=%s" % ("+".join(sorted(case["maps"])) if len(case["maps"]) < 3 else "all", b)
     if fam == "permb":
@@ -617,7 +621,11 @@ def unit_cases(name, base, tier):
 
 def water_cases(name, base, tier):
     fs = [1e-3, .1, 10.0, 1e3] if tier == "quick" else [1e-3, 1e-2, .1, .3, .5, 2.0, 7.0, 10.0, 100.0, 1e3]
-    return [{"base": name, "fam": "water", "f": f} for f in fs]
+    out = [{"base": name, "fam": "water", "f": f} for f in fs]
+    # the same scaling of a solution stated per litre or per kg solution (the conversion to kg water meets -water f)
+    fd = [.1, 10.0] if tier == "quick" else [1e-2, .1, .5, 2.0, 10.0, 100.0]
+    out += [{"base": name, "fam": "water", "f": f, "den": den} for den in ("l", "kgs") for f in fd]
+    return out
 
 
 def renum_cases(name, base, tier):
